@@ -217,6 +217,18 @@ def tie(ctx, tab):
 # ---------------------------------------------------------------------------
 # generators
 # ---------------------------------------------------------------------------
+# version ids (strings in vlib/impl/c20.py VERSIONS); groups differ only in the versioneer local label
+VER_GROUPS = [[1, 2, 3], [4, 7], [5, 6]]
+
+
+def next_version(rng, ver):
+    """mostly a version that differs from the current one only after the '+', else any other"""
+    grp = [g for g in VER_GROUPS if ver in g]
+    if grp and rng.random() < 0.65:
+        return rng.choice([v for v in grp[0] if v != ver])
+    return rng.choice([v for v in range(1, 9) if v != ver])
+
+
 TOGGLES = ["expand_vectors", "replace_constant_values", "detect_aliases", "replace_parameter_values",
            "verbose", "check_balanced", "expand_mx", "eliminate_constant_assignments"]
 LIBS = [[1], [2], [1, 2], [2, 1], []]
@@ -250,7 +262,7 @@ def gen_history(rng, maxops, stream):
     ops = []
     hi = clock          # upper bound of every cache mtime so far
     n = rng.randint(3, maxops)
-    ver = 1
+    ver0 = ver = rng.choice([1, 1, 2, 3, 4, 5, 6, 7])
     while len(ops) < n:
         x = rng.random()
         last_transfer = bool(ops) and ops[-1][0] == "transfer"
@@ -293,7 +305,7 @@ def gen_history(rng, maxops, stream):
             ops.append(["noise", rng.choice([0, 1, 2]), rng.choice(["notes.txt", "Main.mo.bak", "mo"]), hi + rng.randint(1, 4)])
             continue
         if x < 0.90:
-            ver = ver + 1 if rng.random() < 0.8 else max(1, ver - 1)
+            ver = next_version(rng, ver)
             ops.append(["ver", ver])
             continue
         # option change
@@ -314,7 +326,7 @@ def gen_history(rng, maxops, stream):
         ops.append(["opts", opts])
     if ops[-1][0] != "transfer":
         ops.append(["transfer", max(clock, hi) + 1])
-    return {"files0": files0, "opts0": opts0, "ver0": 1, "ops": ops, "stream": stream}
+    return {"files0": files0, "opts0": opts0, "ver0": ver0, "ops": ops, "stream": stream}
 
 
 def directed(tab):
@@ -327,6 +339,9 @@ def directed(tab):
     H.append({"ops": [["transfer", 1001], ["add", 1, 1, 1002, 4], ["transfer", 1003], ["transfer", 1004]]})  # file added to a library folder
     H.append({"ops": [["transfer", 1001], ["add", 0, 1, 1002, 4], ["transfer", 1003]]})                 # added file that shadows the library class
     H.append({"ops": [["transfer", 1001], ["ver", 2], ["transfer", 1002], ["transfer", 1003]]})          # version change
+    # versions that differ only in the versioneer local label ('0.9.2' / '0.9.2+3.g1a2b3c4' / '....dirty', '0+untagged.N.g...')
+    for a, b in ((1, 2), (2, 3), (3, 1), (5, 6), (4, 7)):
+        H.append({"ver0": a, "ops": [["transfer", 1001], ["ver", b], ["transfer", 1002], ["ver", a], ["transfer", 1003]]})
     for k in ("expand_vectors", "replace_constant_values", "verbose"):
         H.append({"ops": [["transfer", 1001], ["opts", dict(o, **{k: True})], ["transfer", 1002], ["opts", o], ["transfer", 1003]]})
     H.append({"ops": [["transfer", 1001], ["edit", 2, 0, 1002, 4], ["transfer", 1003]]})                 # edit outside the view: cache stays valid
@@ -348,7 +363,7 @@ def directed(tab):
     H.append({"stream": "lib", "ops": [["transfer", 1001], ["ver", 2], ["opts", dict(o, library_folders=[2])], ["transfer", 1002], ["transfer", 1003]]})
     out = []
     for h in H:
-        out.append({"files0": h.get("files0", f), "opts0": h.get("opts0", o), "ver0": 1, "ops": h["ops"],
+        out.append({"files0": h.get("files0", f), "opts0": h.get("opts0", o), "ver0": h.get("ver0", 1), "ops": h["ops"],
                     "stream": h.get("stream", "core")})
     return out
 
